@@ -132,7 +132,7 @@ META["C02"] = {
     "parts": 3,
     "tiers": {
         "quick": {"shards": 3, "deadline_s": 300,
-                  "bounds": "20 configurations (PLAIN d=1,2; VEGAS uniform and grid [0,1/4,1] d=1,2; MULTI-CHANNEL 2 channels / 3 channels with one disabled and jacobian 2 / 2 channels with a region of vanishing densities (infinite weight), d=1,2; each with and without a 2-bin distribution) x N in {0,1,2,3,4,5} x every value sequence over {0,1,-3/2,1/4,3,NaN}; random numbers exhaustive over {1/8,3/8,5/8,7/8} when <= 4 numbers are drawn, one pattern per sequence otherwise; 3-iteration runs through plain/vegas/multi_channel with unequal calls; 3 types"},
+                  "bounds": "26 configurations (PLAIN d=1,2,3; VEGAS uniform and grid [0,1/4,1] d=1,2,3; MULTI-CHANNEL 2 channels / 3 channels with one disabled and jacobian 2 / 2 channels with a region of vanishing densities (infinite weight), d=1,2; each with and without a 2-bin distribution) x N in {0,1,2,3,4,5} x every value sequence over {0,1,-3/2,1/4,3,NaN}; random numbers exhaustive over {1/8,3/8,5/8,7/8} when <= 4 numbers are drawn, one pattern per sequence otherwise; 3-iteration runs through plain/vegas/multi_channel with unequal calls; 3 types"},
         "thorough": {"shards": 3, "deadline_s": 1800, "bounds": "as quick with N = 7 in addition"},
     },
     "rule": "nested enumeration of value sequences and random-number patterns; the integrand logs (f, w, bin/channel, densities) per call and the reference model recomputes every reported quantity from that log; non-trivial = at least two non-zero values; distinct = distinct (configuration, sequence, random pattern)",
